@@ -129,7 +129,8 @@ def replay(d):
                 dat = D.t2data(); dat.grid = g
                 if d['pre']['bnames']:
                     dat.add_generator(D.t2generator(name='gen 1', block=d['pre']['bnames'][0]))
-                dat.rename_blocks(dict((k, v) for k, v in a['map']), invert=a.get('invert', False), fix_blocknames=a['fix'])
+                mp = dict((v, k) for k, v in a['map']) if a.get('invert') else dict((k, v) for k, v in a['map'])
+                dat.rename_blocks(mp, invert=a.get('invert', False), fix_blocknames=a['fix'])
                 res = dat.grid
                 if not (len(res.block) == nlist and len(res.blocklist) == nlist):
                     extra_bad.append(('blocks', 'renaming lost a block: %d names in the lookup, %d blocks in the list' % (len(res.block), len(res.blocklist))))
